@@ -790,6 +790,11 @@ def tamper_bundle(sc, base, target, ver, data, rng, out, n):
         if new == old:
             new = old ^ 1
         tamper_exact(sc, base, target, ver, data, pos, new, out)
+    # a truncated file (mail cut, partial download): right after the compressed stream's header, and somewhere
+    if ver == "4":
+        hdr = data.index(b"\n#\n") + 3
+        for cut in (hdr + 14, rng.randrange(hdr + 15, len(data))):
+            tamper_exact(sc, base, target, ver, data, cut, None, out)
 
 
 TAMPER_TIMEOUT = 40
@@ -842,8 +847,13 @@ def tamper_exact(sc, base, target, ver, data, pos, new, out):
     import select
     import signal
     cnt = out["count"]
-    old = data[pos]
-    mutated = data[:pos] + bytes([new]) + data[pos + 1:]
+    if new is None:                       # truncation at `pos`
+        old, mutated = None, data[:pos]
+        descr = "truncated to %d of %d bytes" % (pos, len(data))
+    else:
+        old = data[pos]
+        mutated = data[:pos] + bytes([new]) + data[pos + 1:]
+        descr = "with byte %d changed from %#x to %#x" % (pos, old, new)
     case = dict(scenario=sc["key"], base=base.decode(), target=target.decode(), ver=ver, tamper=[pos, new])
     out["cases"].append((case, True))
     r, w = os.pipe()
@@ -868,7 +878,7 @@ def tamper_exact(sc, base, target, ver, data, pos, new, out):
         os.kill(pid, signal.SIGKILL)
         os.waitpid(pid, 0)
         os.close(r)
-        keep = os.path.join("/var/tmp", "c40-nonterminating-bundle-%s-%d-%d.bin" % ("-".join(map(str, sc["key"])), pos, new))
+        keep = os.path.join("/var/tmp", "c40-nonterminating-bundle-%s-%d-%s.bin" % ("-".join(map(str, sc["key"])), pos, new))
         try:
             with open(keep, "wb") as f:
                 f.write(mutated)
@@ -876,8 +886,8 @@ def tamper_exact(sc, base, target, ver, data, pos, new, out):
             keep = "(not saved)"
         # (fixed in /repo by 8f646b8: an incomplete bz2 stream raises BadBundle; reported plainly if it returns)
         fam = None
-        out["viol"].append((case, "reading / installing a v%s bundle with byte %d changed from %#x to %#x does not "
-                                  "terminate within %d s (mutated bundle saved as %s)" % (ver, pos, old, new, TAMPER_TIMEOUT, keep), fam))
+        out["viol"].append((case, "reading / installing a v%s bundle %s does not terminate within %d s (mutated "
+                                  "bundle saved as %s)" % (ver, descr, TAMPER_TIMEOUT, keep), fam))
         cnt["tamper:v%s:DOES-NOT-TERMINATE" % ver] += 1
         return
     buf = b""
@@ -894,11 +904,13 @@ def tamper_exact(sc, base, target, ver, data, pos, new, out):
         kind, detail = "crash", "child gave no result"
     if kind == "raised":
         cnt["tamper:v%s:raised:%s" % (ver, detail)] += 1
+    elif kind == "identical" and new is None:
+        out["viol"].append((case, "a v%s bundle %s is read and installed without any error" % (ver, descr), None))
+        cnt["tamper:v%s:TRUNCATED-ACCEPTED" % ver] += 1
     elif kind == "identical":
         cnt["tamper:v%s:accepted-identical" % ver] += 1
     elif kind == "silent":
-        out["viol"].append((case, "a v%s bundle with byte %d changed from %#x to %#x is accepted: %s" % (
-            ver, pos, old, new, detail), None))
+        out["viol"].append((case, "a v%s bundle %s is accepted: %s" % (ver, descr, detail), None))
         cnt["tamper:v%s:SILENT" % ver] += 1
     else:
         raise RuntimeError("tamper child failed: %s" % detail)
